@@ -823,6 +823,8 @@ pub fn o_writes(prop: &str, ops: &[Op], ex: &Exec) -> V {
             | Op::DropFile { h }
             | Op::Read { h, .. }
             | Op::ReadExact { h, .. }
+            | Op::Seek { h, .. }
+            | Op::Extents { h }
             | Op::SetTime { h, .. } => handle_sets(*h as usize, &mut allowed_owner),
             Op::Remount | Op::DropRemount => {
                 for h in 0..m.fh.len() {
